@@ -7,6 +7,7 @@ import pandas as pd
 import scipy.sparse as sp
 import warnings
 import time
+import copy
 import scipy.optimize as opt
 from numbers import Real
 from scipy.sparse import csr_matrix, coo_matrix, lil_matrix
@@ -4658,6 +4659,7 @@ class ExpPiecewiseConvex(PiecewiseConvex):
             if isinstance(piece, (RandVar, RandVarSub)):
                 piece = piece.rand_to_roaffine(model.vt_model)
             if isinstance(piece, (DecAffine, DecRoAffine)):
+                piece = copy.copy(piece)
                 piece.ctype = 'E'
 
             expect_pieces.append(piece)
